@@ -63,6 +63,7 @@ def handleCoeffs (fs : List (String × String)) : String :=
           if b.2 = 0 then return some "empty window"
         if ¬ (Gen.constify_arms.contains p16) then return some s!"precision {p16} has no dispatch arm"
         if p16 < 4 ∨ p32 < 4 then return some "precision below 4"
+        if p16 ≥ Gen.PRECISION_BITS ∨ p32 ≥ Gen.PRECISION16_BITS then return some s!"precision {p16} / {p32} leaves less than the two documented head-room bits"
         for ks in g16 do
           if ¬ quantOKb ks p16 255 then return some s!"QuantOK fails for an i16 window: sum {ks.foldl (· + ·) 0} at precision {p16}"
           if nonnegFilter ∧ ks.any (· < 0) then return some "negative i16 coefficient for a non-negative filter"
